@@ -478,6 +478,9 @@ type ppInstr struct {
 func (s *ppSim) proppatch(rt *rapid.T, c vs.Chooser, client int) *vs.Violation {
 	res := s.resources()
 	p := res[c.Intn(len(res))]
+	if p == "/" && len(res) > 1 && !vs.Pct(c, 10) {
+		p = res[1+c.Intn(len(res)-1)] // memFS refuses PROPPATCH on its root: keep that rare
+	}
 	missing := false
 	if vs.Pct(c, 4) {
 		p, missing = "/nosuch", true
